@@ -296,17 +296,18 @@ def ctor_value_cases():
     fails, n = [], 0
     for N in (2, 3, 5):
         for inplace in (True, False):
-            for kind in ("tensor", "parameter"):
+            for kind in ("tensor", "parameter", "scalar"):
                 n += 1
                 m = inferno.Module()
-                v0 = torch.tensor([1.5, -2.0])
+                # "scalar": 0-dimensional observations - their shape () is falsy although the storage is initialised
+                v0 = torch.tensor(1.5) if kind == "scalar" else torch.tensor([1.5, -2.0])
                 val = torch.nn.Parameter(v0.clone(), False) if kind == "parameter" else v0.clone()
                 rec = inferno.RecordTensor(m, "x", 1.0, float(N - 1), val, inclusive=True)
                 inp = dict(N=N, inplace=inplace, storage=kind)
                 if rec.recordsz != N or any(not torch.equal(rec.read(k + 1), v0) for k in range(N)):
                     fails.append({"what": "C01/ctor_value/slots_hold_initial_observation", "input": inp, "expected": v0.tolist(), "actual": [rec.read(k + 1).tolist() for k in range(N)]})
                     continue
-                obs = torch.tensor([7.0, 9.0])
+                obs = torch.tensor(7.0) if kind == "scalar" else torch.tensor([7.0, 9.0])
                 rec.push(obs, inplace)
                 got = [rec.read(k + 1) for k in range(N)]
                 if not torch.equal(got[0], obs) or any(not torch.equal(g, v0) for g in got[1:]):
